@@ -409,6 +409,8 @@ pub struct Rig {
     pub dut: Option<Owned>,
     pub init: Outcome,
     pub delay: VDelay,
+    /// low-level operations one call may use before it counts as non-terminating
+    pub call_budget: u64,
 }
 
 pub const DEFAULT_BUDGET: u64 = 50_000_000;
@@ -439,7 +441,7 @@ impl Rig {
             Err(e) => Err(e),
         });
         let delay = VDelay::new(&bd);
-        let mut r = Rig { cfg: *cfg, bd, dec: Decoder::new(levels), ctl, dut, init, delay };
+        let mut r = Rig { cfg: *cfg, bd, dec: Decoder::new(levels), ctl, dut, init, delay, call_budget: DEFAULT_BUDGET };
         r.sync();
         r.ctl.finish_cmd();
         r
@@ -465,10 +467,8 @@ impl Rig {
     pub fn set_faults(&mut self, f: &[Fault]) {
         self.bd.borrow_mut().faults = f.to_vec();
     }
-    pub fn set_budget(&mut self, ops: u64, words: u64) {
-        let mut b = self.bd.borrow_mut();
-        b.budget = ops;
-        b.word_budget = words;
+    pub fn set_budget(&mut self, ops: u64, _words: u64) {
+        self.call_budget = ops;
     }
     pub fn c666(&self) -> bool {
         self.cfg.c666()
@@ -488,6 +488,14 @@ impl Rig {
         self.apply_budget(op, budget)
     }
     pub fn apply_budget(&mut self, op: &Op, pull_budget: u64) -> Outcome {
+        // the termination budget is per call, not per rig lifetime
+        {
+            let mut b = self.bd.borrow_mut();
+            if b.budget != u64::MAX {
+                b.budget = self.call_budget;
+                b.word_budget = self.call_budget;
+            }
+        }
         let c666 = self.c666();
         let d = self.dut.as_mut().expect("display was not built");
         let delay = &mut self.delay;
